@@ -42,6 +42,31 @@ CLAIMED = {
         note=("Lengths bounded (strict: 0,1,L-1,L,L+1,2L; reducing: up to 97 quick / 161 thorough). Montgomery strict-decode "
               "value obligation and long Montgomery reducing decodes are not posed (listed in evidence). Binary fields outside."),
     ),
+    "C20": dict(
+        engine="llsym",
+        technique="symbolic execution of optimized LLVM IR; bit-vector equivalence queries (z3) with symbolic operands, tables and indices",
+        category="model_checking",
+        text=("set_cond/select/cswap of every field type and set_cond/select/set_condneg of the point types are executed "
+              "symbolically with the control word constrained to {0, 0xFFFFFFFF}; iszero for all representations; "
+              "GF255::lookup16_x3/x4 for all 2^32 indices and Point::lookup for every k in -16..16 over arbitrary tables; "
+              "z3 decides bit-exact equality with the specification."),
+        design_ref="DESIGN.md 3 C20, 8",
+        note=("Conditional negation / signed lookups are compared with the library's own negation (C03 decides that it is the "
+              "group negation); bitwise differences are replayed at the value level on valid points before being reported. "
+              "AVX2 paths, GFb254 lookups and point equals/isneutral are outside (listed in evidence)."),
+    ),
+    "C02": dict(
+        engine="llsym",
+        technique="single-path symbolic execution of optimized LLVM IR with all secrets symbolic; every branch condition/address/length/divisor must fold to a constant or be proved secret-independent by z3",
+        category="model_checking",
+        text=("Constant-time entry points (all field operations incl. inversion, sqrt, Legendre, codecs; point add/double/"
+              "encode; full scalar multiplications; X25519; Ed25519 key generation and signing; SHA-256) are executed from "
+              "the -O3 IR with every secret byte symbolic; a non-constant control/address term triggers a two-value "
+              "reachability query."),
+        design_ref="DESIGN.md 3 C02, 8",
+        note=("Level: optimized LLVM IR before instruction selection, default target features; public lengths fixed per "
+              "driver. Micro-architectural timing and the x86 lowering of select are outside."),
+    ),
 }
 
 NA_REASON = "check not built yet (work in progress; see DESIGN.md section 8)"
@@ -76,7 +101,7 @@ man = {
     "engines": [
         {"name": "polyid", "path": "engines/polyid", "serves_properties": ["C03"],
          "kind_free_text": "interpreter over rustc MIR executing point formulas over an abstract ring; z3 decides polynomial identities"},
-        {"name": "llsym", "path": "engines/llsym", "serves_properties": ["C01", "C05"],
+        {"name": "llsym", "path": "engines/llsym", "serves_properties": ["C01", "C02", "C05", "C20"],
          "kind_free_text": "symbolic executor over rustc's optimized LLVM IR (concrete control, symbolic data) with bit-vector and integer SMT encodings; z3/cvc5 decide"},
     ],
     "checks": checks,
